@@ -499,6 +499,7 @@ func explore(eng0 *Engine, cfg Config, in instance, selfMax int, smtlog string) 
 		return res
 	}
 	var mu sync.Mutex
+	violPerClause := map[string]int{}
 	cond := sync.NewCond(&mu)
 	queue := [][]Decision{nil}
 	active := 0
@@ -567,8 +568,13 @@ func explore(eng0 *Engine, cfg Config, in instance, selfMax int, smtlog string) 
 				for _, c := range pr.Covers {
 					res.covers[c] = true
 				}
-				if len(res.violations) < 8 {
-					res.violations = append(res.violations, pr.Violations...)
+				// keep a few violations per clause (a global cap would let the many instances of one
+				// clause, e.g. a known finding, crowd out a violation of another clause)
+				for _, v := range pr.Violations {
+					if violPerClause[v.Clause] < 4 {
+						violPerClause[v.Clause]++
+						res.violations = append(res.violations, v)
+					}
 				}
 				if pr.Witness != nil {
 					res.witnesses = append(res.witnesses, pr.Witness)
